@@ -297,7 +297,7 @@ theorem int64Digits_eq (signed neg : Bool) (base : Int) (hb0 : base ≠ 0) (hhi 
           | .done any acc n =>
             if any = 0 then .fail else if any < 0 then .fail
             else if signed then (if neg then (if acc = i64Min then .ub else .ok (-acc) (off + n)) else .ok acc (off + n))
-            else (if neg then .ok (toI64 ((two64 - toU64 acc) % two64)) (off + n) else .ok (toI64 (toU64 acc)) (off + n))) := by
+            else (if neg then .ok (if toU64 acc > two63 - 1 then i64Min else -toI64 (toU64 acc)) (off + n) else .ok (toI64 (toU64 acc)) (off + n))) := by
       simp only [int64Digits, hbu, L, hcl]
       rfl
     rw [hunf]
@@ -366,18 +366,16 @@ theorem int64Digits_eq (signed neg : Bool) (base : Int) (hb0 : base ≠ 0) (hhi 
                 unfold i64Min i64Max; unfold two63 at hle2; omega
               have hu : toU64 acc = hornerFrom b 0 ds := by
                 rw [hacc]; exact toU64_natCast _ (by unfold two64; unfold two63 at hle2; omega)
-              have hv : toI64 ((two64 - hornerFrom b 0 ds) % two64) = -((hornerFrom b 0 ds : Nat) : Int) := by
-                unfold toI64
+              have hv : (if hornerFrom b 0 ds > two63 - 1 then i64Min else -toI64 (hornerFrom b 0 ds)) = -((hornerFrom b 0 ds : Nat) : Int) := by
+                unfold toI64 i64Min
                 unfold two63 at hle2
                 unfold two64 two63
-                by_cases hz : hornerFrom b 0 ds = 0
-                · simp [hz]
-                · have e : (18446744073709551616 - hornerFrom b 0 ds) % 18446744073709551616 = 18446744073709551616 - hornerFrom b 0 ds :=
-                    Nat.mod_eq_of_lt (by omega)
-                  rw [Nat.mod_mod, e]
-                  have : ¬ (18446744073709551616 - hornerFrom b 0 ds < 9223372036854775808) := by omega
-                  simp only [this, if_false]
-                  omega
+                have e : hornerFrom b 0 ds % 18446744073709551616 = hornerFrom b 0 ds := Nat.mod_eq_of_lt (by omega)
+                rw [e]
+                by_cases hz : hornerFrom b 0 ds > 9223372036854775808 - 1
+                · simp only [hz, if_true]; omega
+                · have : hornerFrom b 0 ds < 9223372036854775808 := by omega
+                  simp only [hz, if_false, this, if_true]
               simp [hr, hu, hv]
             | false =>
               have hle2 : hornerFrom b 0 ds ≤ two63 - 1 := by simpa [L, hng] using hle
